@@ -2,6 +2,11 @@ import FormulaicVerif.Proofs.C12
 import FormulaicVerif.Proofs.C12Cubic
 import FormulaicVerif.Proofs.C12Extend
 import FormulaicVerif.Proofs.C12Glue
+import FormulaicVerif.Proofs.C12Unique
+import FormulaicVerif.Proofs.C12Exist
+import FormulaicVerif.Proofs.C12Entry
+import FormulaicVerif.Proofs.C12Total
+import FormulaicVerif.Model.SplineSolve
 import Mathlib.Algebra.Order.BigOperators.Group.List
 /-! # C12 — Spline transforms reproduce the mathematical bases they name
 
@@ -10,12 +15,21 @@ an arbitrary linearly ordered field), `Proofs/C12.lean` (model = reference), `Pr
 (base functions at the knots, centering), `Proofs/C12Piece.lean` (algebra and derivatives of one
 cubic piece), `Proofs/C12Interp.lean` (model row = piece values), `Proofs/C12Contract.lean`
 (`residualF = 0` ⟹ tridiagonal equations), `Proofs/C12Extend.lean` (tangent-line extrapolation),
-`Proofs/C12Glue.lean` (real-analysis gluing).  Every `theorem` in this file is an obligation audited with
-`#print axioms`.
+`Proofs/C12Glue.lean` (real-analysis gluing), `Proofs/C12Unique.lean` (strict diagonal dominance ⟹
+uniqueness; every cubic is a `Piece`), `Proofs/C12Exist.lean` (existence of `F`; converse of the
+contract lemmas), `Proofs/C12Quant.lean` (`sort`, `numpy.unique`, linear-interpolation quantiles),
+`Proofs/C12Entry.lean` (entry-point model = numerical model, accepted calls, reachable exits, order
+independence of explicit knots), `Proofs/C12Total.lean` (column counts, totality of the numerical
+part).  Every `theorem` in this file is an obligation audited with `#print axioms`.
 
-Models: `Model/BSpline.lean` (`basis_spline`), `Model/CubicSpline.lean` (`cubic_spline`).
-The functions below (`rowAll`, `rowFor`, `transform`, `fit`, `freeRow`, `residualF`, …) are the ones
-the correspondence engine `Engines/C12.lean` runs against the real code on every check.
+Models: `Model/BSpline.lean` (`basis_spline`), `Model/CubicSpline.lean` (`cubic_spline`),
+`Model/SplineEntry.lean` (the two entry points from the call as written: argument validation with
+one reason per `raise` statement, quantile knots, `_get_all_sorted_knots`, given `_state`s),
+`Model/SplineSolve.lean` (the second-derivative map solved exactly and certified), and the
+generated `Gen/SplineTable.lean`.  The functions below (`rowAll`, `rowFor`, `transform`, `fit`,
+`freeRow`, `residualF`, `cubicSpline`, `basisSpline`, `prepareCs`, `sortedKnots`, `quantLin`,
+`solveF`, …) are the ones the correspondence engine `Engines/C12.lean` runs against the real code
+on every check.
 
 Notion of derivative used for the cubic-spline theorems (C12.5): on each knot interval the column
 of the design matrix is a polynomial piece `Spec.CubicSpline.Piece` with explicit `val`, `d1`,
@@ -24,8 +38,9 @@ of the design matrix is a polynomial piece `Spec.CubicSpline.Piece` with explici
 computes); `piece_derivatives_analytic` proves `HasDerivAt` over any normed field of
 characteristic 0.  "C¹ / C² at a knot" means: the two adjacent pieces have equal `d1` / `d2`
 values at the shared knot; `cr_glued_pieces_C2_real` turns that into: the glued function `ℝ → ℝ` is
-twice differentiable everywhere.  Not proved: uniqueness of the natural / periodic interpolating
-spline (its defining conditions — piecewise cubic, interpolation, C², end conditions — are). -/
+twice differentiable everywhere.  C12.7 proves that the spline with these defining conditions is
+unique (and exists for every strictly increasing knot vector), so the columns are THE natural /
+periodic interpolating splines of the unit vectors. -/
 
 namespace FormulaicVerif.Props.C12
 open FormulaicVerif.Model.BSpline FormulaicVerif.Spec.BSpline FormulaicVerif.Proofs.C12
@@ -597,6 +612,280 @@ example : (crPiece [0, 1, 3] [[0, 0, 0], [1, 1, 1], [0, 0, 0]] 0 1).d1 1
 example : (crPiece [0, 1, 3] [[0, 0, 0], [1, -3/2, 1/2], [0, 0, 0]] 0 1).d1 1
     = (crPiece [0, 1, 3] [[0, 0, 0], [1, -3/2, 1/2], [0, 0, 0]] 1 1).d1 1 := by decide +kernel
 
+
+/-! ### C12.7 Uniqueness: the columns are THE natural / periodic interpolating splines -/
+
+/-- **C12.7a** The second-derivative map of the natural spline is UNIQUE: the tridiagonal matrix
+`natB` of `_get_natural_f` is strictly diagonally dominant for strictly increasing knots, so two
+matrices that both satisfy the contract the engine evaluates (`natB·F[1:-1] = natD`, zero first and
+last row) are equal.  Whatever linear solver the code calls, there is only one `F` it may return. -/
+theorem cr_F_unique (knots : List Rat) (F F' : List (List Rat))
+    (hs : knots.Pairwise (· < ·)) (hn : 2 ≤ knots.length)
+    (hF : F.length = knots.length) (hFr : ∀ r ∈ F, r.length = knots.length)
+    (hF' : F'.length = knots.length) (hFr' : ∀ r ∈ F', r.length = knots.length)
+    (hc : AllZero (residualF knots false F)) (hc' : AllZero (residualF knots false F')) : F = F' := by
+  obtain ⟨a0, a1, at'⟩ := nat_contract_tri knots F hn hF hFr hc
+  obtain ⟨b0, b1, bt⟩ := nat_contract_tri knots F' hn hF' hFr' hc'
+  refine matrix_ext F F' knots.length knots.length hF hF' hFr hFr' ?_
+  intro i c hi hcc
+  exact tri_unique knots.length (hsp knots) (fun k => delta k c) (fun k => Ffn F k c) (fun k => Ffn F' k c)
+    (fun k hk => hsp_pos knots hs k hk) (a0 c) (b0 c) (a1 c) (b1 c)
+    (fun k hk => at' k c hk hcc) (fun k hk => bt k c hk hcc) i hi
+
+/-- **C12.7a'** the same for the periodic system `cycB·F = cycD` of `_get_cyclic_f`. -/
+theorem cc_F_unique (knots : List Rat) (F F' : List (List Rat))
+    (hs : knots.Pairwise (· < ·)) (hn : 2 ≤ knots.length)
+    (hF : F.length = knots.length - 1) (hFr : ∀ r ∈ F, r.length = knots.length - 1)
+    (hF' : F'.length = knots.length - 1) (hFr' : ∀ r ∈ F', r.length = knots.length - 1)
+    (hc : AllZero (residualF knots true F)) (hc' : AllZero (residualF knots true F')) : F = F' := by
+  have at' := cyc_contract_tri knots F hn hF hFr hc
+  have bt := cyc_contract_tri knots F' hn hF' hFr' hc'
+  refine matrix_ext F F' (knots.length - 1) (knots.length - 1) hF hF' hFr hFr' ?_
+  intro i c hi hcc
+  exact cyc_unique (knots.length - 1) (hsp knots) (fun k => delta k c) (fun k => Ffn F k c)
+    (fun k => Ffn F' k c) (fun k hk => hsp_pos knots hs k (by omega))
+    (fun r hr => at' r c hr hcc) (fun r hr => bt r c hr hcc) i hi
+
+open Polynomial in
+/-- **C12.7b** THE natural interpolating cubic spline.  Let `P_0, …, P_{n-2}` be ANY polynomials of
+degree ≤ 3, one per knot interval, that interpolate the unit vector `e_c` at both ends of their
+interval (so the glued function is continuous), have equal first and second derivatives
+(`Polynomial.derivative`) at every interior knot, and zero second derivative at the two boundary
+knots.  Then, under the contract on `F`, each `P_j` is — on the whole line, as a function — the
+cubic piece of column `c` of the model's design matrix (which, by `cr_is_natural_interpolant`, is
+the value the model computes on `[k_j, k_{j+1}]`).  The column is not merely *a* spline with the
+defining properties: it is the only one. -/
+theorem cr_interpolant_unique (knots : List Rat) (F : List (List Rat))
+    (hs : knots.Pairwise (· < ·)) (hn : 2 ≤ knots.length)
+    (hF : F.length = knots.length) (hFr : ∀ r ∈ F, r.length = knots.length)
+    (hcontract : AllZero (residualF knots false F)) (c : ℕ) (hc : c < knots.length)
+    (P : ℕ → Polynomial ℚ)
+    (hdeg : ∀ j, j + 1 < knots.length → (P j).natDegree ≤ 3)
+    (hL : ∀ j, j + 1 < knots.length → (P j).eval (knotFn knots j) = delta j c)
+    (hR : ∀ j, j + 1 < knots.length → (P j).eval (knotFn knots (j + 1)) = delta (j + 1) c)
+    (hC1 : ∀ j, j + 2 < knots.length →
+      (derivative (P j)).eval (knotFn knots (j + 1)) = (derivative (P (j + 1))).eval (knotFn knots (j + 1)))
+    (hC2 : ∀ j, j + 2 < knots.length →
+      (derivative (derivative (P j))).eval (knotFn knots (j + 1))
+        = (derivative (derivative (P (j + 1)))).eval (knotFn knots (j + 1)))
+    (hN0 : (derivative (derivative (P 0))).eval (knotFn knots 0) = 0)
+    (hN1 : (derivative (derivative (P (knots.length - 2)))).eval (knotFn knots (knots.length - 1)) = 0) :
+    ∀ j, j + 1 < knots.length → ∀ x, (P j).eval x = (crPiece knots F j c).val x := by
+  -- second derivatives of the given spline at the knots
+  let m : ℕ → ℚ := fun i =>
+    if i + 1 < knots.length then (derivative (derivative (P i))).eval (knotFn knots i)
+    else (derivative (derivative (P (knots.length - 2)))).eval (knotFn knots (knots.length - 1))
+  have hmL : ∀ j, j + 1 < knots.length → (derivative (derivative (P j))).eval (knotFn knots j) = m j := by
+    intro j hj; simp only [m, hj, if_true]
+  have hmR : ∀ j, j + 1 < knots.length →
+      (derivative (derivative (P j))).eval (knotFn knots (j + 1)) = m (j + 1) := by
+    intro j hj
+    by_cases h2 : j + 2 < knots.length
+    · rw [hC2 j h2]; simp only [m, h2, if_true]
+    · have e : j = knots.length - 2 := by omega
+      have e' : j + 1 = knots.length - 1 := by omega
+      simp only [m, h2, if_false]
+      rw [e', ← e]
+  -- the given spline, piece by piece, in the values / second derivatives parametrisation
+  let q : ℕ → Piece ℚ := fun j =>
+    { kl := knotFn knots j, kr := knotFn knots (j + 1), yl := delta j c, yr := delta (j + 1) c,
+      ml := m j, mr := m (j + 1) }
+  have hne : ∀ j, j + 1 < knots.length → knotFn knots (j + 1) - knotFn knots j ≠ 0 :=
+    fun j hj => ne_of_gt (hsp_pos knots hs j hj)
+  have hq : ∀ j, j + 1 < knots.length →
+      (∀ x, (P j).eval x = (q j).val x) ∧ (∀ x, (derivative (P j)).eval x = (q j).d1 x) := by
+    intro j hj
+    have := cubic_as_piece (P j) (hdeg j hj) (knotFn knots j) (knotFn knots (j + 1)) (hne j hj)
+    simp only [hL j hj, hR j hj, hmL j hj, hmR j hj] at this
+    exact this
+  -- C¹ at the interior knots = the tridiagonal equations for `m`
+  have htri : ∀ i, i + 2 < knots.length →
+      TriEq (hsp knots i) (hsp knots (i + 1)) (delta i c) (delta (i + 1) c) (delta (i + 2) c)
+        (m i) (m (i + 1)) (m (i + 2)) := by
+    intro i hi
+    have h1 := (hq i (by omega)).2 (knotFn knots (i + 1))
+    have h2 := (hq (i + 1) hi).2 (knotFn knots (i + 1))
+    have := (Piece.c1_iff_triEq (q i) (q (i + 1)) (hne i (by omega)) (hne (i + 1) hi) rfl rfl).1
+      (by
+        show (q i).d1 (knotFn knots (i + 1)) = (q (i + 1)).d1 (knotFn knots (i + 1))
+        rw [← h1, ← h2]; exact hC1 i hi)
+    exact this
+  obtain ⟨a0, a1, at'⟩ := nat_contract_tri knots F hn hF hFr hcontract
+  have m0 : m 0 = 0 := by rw [← hmL 0 (by omega)]; exact hN0
+  have m1 : m (knots.length - 1) = 0 := by
+    have : ¬ (knots.length - 1 + 1 < knots.length) := by omega
+    simp only [m, this, if_false]; exact hN1
+  have hmF : ∀ i, i < knots.length → m i = Ffn F i c :=
+    tri_unique knots.length (hsp knots) (fun k => delta k c) m (fun k => Ffn F k c)
+      (fun k hk => hsp_pos knots hs k hk) m0 (a0 c) m1 (a1 c) htri (fun k hk => at' k c hk hc)
+  intro j hj x
+  rw [(hq j hj).1 x]
+  have : q j = crPiece knots F j c := by
+    simp only [q, crPiece, hmF j (by omega), hmF (j + 1) hj]
+  rw [this]
+
+open Polynomial in
+/-- **C12.7c** Existence, so that C12.7b is not vacuous and "the" is justified: under the contract
+the pieces of column `c`, read as polynomials, satisfy every hypothesis of `cr_interpolant_unique`. -/
+theorem cr_column_is_natural_spline (knots : List Rat) (F : List (List Rat))
+    (hs : knots.Pairwise (· < ·)) (hn : 2 ≤ knots.length)
+    (hF : F.length = knots.length) (hFr : ∀ r ∈ F, r.length = knots.length)
+    (hcontract : AllZero (residualF knots false F)) (c : ℕ) (hc : c < knots.length) :
+    let P : ℕ → Polynomial ℚ := fun j => Piece.poly (crPiece knots F j c)
+    (∀ j, j + 1 < knots.length → (P j).natDegree ≤ 3) ∧
+    (∀ j, j + 1 < knots.length → (P j).eval (knotFn knots j) = delta j c) ∧
+    (∀ j, j + 1 < knots.length → (P j).eval (knotFn knots (j + 1)) = delta (j + 1) c) ∧
+    (∀ j, j + 2 < knots.length →
+      (derivative (P j)).eval (knotFn knots (j + 1)) = (derivative (P (j + 1))).eval (knotFn knots (j + 1))) ∧
+    (∀ j, j + 2 < knots.length →
+      (derivative (derivative (P j))).eval (knotFn knots (j + 1))
+        = (derivative (derivative (P (j + 1)))).eval (knotFn knots (j + 1))) ∧
+    (derivative (derivative (P 0))).eval (knotFn knots 0) = 0 ∧
+    (derivative (derivative (P (knots.length - 2)))).eval (knotFn knots (knots.length - 1)) = 0 := by
+  obtain ⟨_, hi, hii, hiii, h0, h1⟩ := cr_is_natural_interpolant knots F hs hn hF hFr hcontract c hc
+  intro P
+  have hh : ∀ j, j + 1 < knots.length → (crPiece knots F j c).h ≠ 0 :=
+    fun j hj => crPiece_h_ne knots hs F j c hj
+  refine ⟨fun j _ => Piece.poly_natDegree _, ?_, ?_, ?_, ?_, ?_, ?_⟩
+  · intro j hj; simp only [P, Piece.poly_eval]; exact (hi j hj).1
+  · intro j hj; simp only [P, Piece.poly_eval]; exact (hi j hj).2
+  · intro j hj; simp only [P, Piece.poly_derivative_eval]; exact hiii j hj
+  · intro j hj
+    simp only [P]
+    rw [Piece.poly_derivative2_eval _ (hh j (by omega)), Piece.poly_derivative2_eval _ (hh (j + 1) hj)]
+    exact hii j hj
+  · simp only [P]; rw [Piece.poly_derivative2_eval _ (hh 0 (by omega))]; exact h0
+  · simp only [P]; rw [Piece.poly_derivative2_eval _ (hh _ (by omega))]; exact h1
+
+
+open Polynomial in
+/-- **C12.7b'** THE periodic interpolating cubic spline: any polynomials `P_0, …, P_{m-1}` of degree
+≤ 3 (one per interval; `m = len(knots) − 1` nodes on the circle, the last knot is node 0) that
+interpolate `e_c`, and whose first and second derivatives agree at EVERY node of the circle
+(including node 0, where the last piece meets the first), are the pieces of column `c` of the
+cyclic design matrix. -/
+theorem cc_interpolant_unique (knots : List Rat) (F : List (List Rat))
+    (hs : knots.Pairwise (· < ·)) (hn : 2 ≤ knots.length)
+    (hF : F.length = knots.length - 1) (hFr : ∀ r ∈ F, r.length = knots.length - 1)
+    (hcontract : AllZero (residualF knots true F)) (c : ℕ) (hc : c < knots.length - 1)
+    (P : ℕ → Polynomial ℚ)
+    (hdeg : ∀ j, j < knots.length - 1 → (P j).natDegree ≤ 3)
+    (hL : ∀ j, j < knots.length - 1 → (P j).eval (knotFn knots j) = delta j c)
+    (hR : ∀ j, j < knots.length - 1 →
+      (P j).eval (knotFn knots (j + 1)) = delta (csucc (knots.length - 1) j) c)
+    (hC1 : ∀ r, r < knots.length - 1 →
+      (derivative (P (cpred (knots.length - 1) r))).eval (knotFn knots (cpred (knots.length - 1) r + 1))
+        = (derivative (P r)).eval (knotFn knots r))
+    (hC2 : ∀ r, r < knots.length - 1 →
+      (derivative (derivative (P (cpred (knots.length - 1) r)))).eval
+          (knotFn knots (cpred (knots.length - 1) r + 1))
+        = (derivative (derivative (P r))).eval (knotFn knots r)) :
+    ∀ j, j < knots.length - 1 → ∀ x, (P j).eval x = (ccPiece knots F j c).val x := by
+  set k := knots.length - 1 with hk
+  let m : ℕ → ℚ := fun i => (derivative (derivative (P i))).eval (knotFn knots i)
+  have hmR : ∀ j, j < k →
+      (derivative (derivative (P j))).eval (knotFn knots (j + 1)) = m (csucc k j) := by
+    intro j hj
+    have := hC2 (csucc k j) (csucc_lt k j hj)
+    rw [cpred_csucc k j hj] at this
+    exact this
+  let q : ℕ → Piece ℚ := fun j =>
+    { kl := knotFn knots j, kr := knotFn knots (j + 1), yl := delta j c, yr := delta (csucc k j) c,
+      ml := m j, mr := m (csucc k j) }
+  have hne : ∀ j, j < k → knotFn knots (j + 1) - knotFn knots j ≠ 0 :=
+    fun j hj => ne_of_gt (hsp_pos knots hs j (by omega))
+  have hq : ∀ j, j < k →
+      (∀ x, (P j).eval x = (q j).val x) ∧ (∀ x, (derivative (P j)).eval x = (q j).d1 x) := by
+    intro j hj
+    have := cubic_as_piece (P j) (hdeg j hj) (knotFn knots j) (knotFn knots (j + 1)) (hne j hj)
+    simp only [hL j hj, hR j hj, hmR j hj] at this
+    exact this
+  have htri : ∀ r, r < k →
+      TriEq (hsp knots (cpred k r)) (hsp knots r) (delta (cpred k r) c) (delta r c) (delta (csucc k r) c)
+        (m (cpred k r)) (m r) (m (csucc k r)) := by
+    intro r hr
+    have hp := cpred_lt k r hr
+    have e := csucc_cpred k r hr
+    have h1 := (hq (cpred k r) hp).2 (knotFn knots (cpred k r + 1))
+    have h2 := (hq r hr).2 (knotFn knots r)
+    have key := (Piece.c1_iff_triEq (q (cpred k r)) (q r) (hne _ hp) (hne r hr)
+      (by simp only [q, e]) (by simp only [q, e])).1
+      (by
+        show (q (cpred k r)).d1 (knotFn knots (cpred k r + 1)) = (q r).d1 (knotFn knots r)
+        rw [← h1, ← h2]; exact hC1 r hr)
+    simp only [q, Piece.h, e] at key
+    exact key
+  have at' := cyc_contract_tri knots F hn hF hFr hcontract
+  have hmF : ∀ i, i < k → m i = Ffn F i c :=
+    cyc_unique k (hsp knots) (fun j => delta j c) m (fun j => Ffn F j c)
+      (fun j hj => hsp_pos knots hs j (by omega)) htri (fun r hr => at' r c hr hc)
+  intro j hj x
+  rw [(hq j hj).1 x]
+  have e1 := hmF j hj
+  have e2 := hmF _ (csucc_lt k j hj)
+  have : q j = ccPiece knots F j c := by
+    simp only [q, ccPiece, e1, e2, ← hk]
+  rw [this]
+
+/-- **C12.7e** Existence and uniqueness of the second-derivative map, for EVERY strictly increasing
+knot vector: the tridiagonal system of `_get_natural_f` is an injective (strictly diagonally
+dominant), hence bijective, endomorphism — there is exactly one matrix of the right shape that
+satisfies the contract.  So the hypothesis `hcontract` of C12.5–C12.7 is never vacuous, and "THE
+natural interpolating spline" exists for all knots, not only for the instances checked above. -/
+theorem cr_F_exists_unique (knots : List Rat) (hs : knots.Pairwise (· < ·)) (hn : 2 ≤ knots.length) :
+    ∃! F : List (List Rat), F.length = knots.length ∧ (∀ r ∈ F, r.length = knots.length) ∧
+      AllZero (residualF knots false F) := by
+  obtain ⟨F, h1, h2, h3⟩ := cr_F_exists knots hs hn
+  exact ⟨F, ⟨h1, h2, h3⟩, fun F' ⟨e1, e2, e3⟩ => cr_F_unique knots F' F hs hn e1 e2 h1 h2 e3 h3⟩
+
+/-- **C12.7e'** the same for the periodic system of `_get_cyclic_f`. -/
+theorem cc_F_exists_unique (knots : List Rat) (hs : knots.Pairwise (· < ·)) (hn : 2 ≤ knots.length) :
+    ∃! F : List (List Rat), F.length = knots.length - 1 ∧ (∀ r ∈ F, r.length = knots.length - 1) ∧
+      AllZero (residualF knots true F) := by
+  obtain ⟨F, h1, h2, h3⟩ := cc_F_exists knots hs hn
+  exact ⟨F, ⟨h1, h2, h3⟩, fun F' ⟨e1, e2, e3⟩ => cc_F_unique knots F' F hs hn e1 e2 h1 h2 e3 h3⟩
+
+/-- **C12.7d** The second-derivative map is now COMPUTED by the model (`Model/SplineSolve.lean`:
+exact Gauss–Jordan elimination on `natB·X = natD` / `cycB·X = cycD`) and returned only with its
+certificate: whatever `solveF` returns has the right shape and satisfies the contract exactly, and
+— for strictly increasing knots — it is the ONLY matrix that does (so the values the linear solver
+of the code returns are approximations of exactly this matrix, which the correspondence compares
+entry by entry). -/
+theorem solveF_is_the_solution (knots : List Rat) (cyclic : Bool) (F : List (List Rat))
+    (h : FormulaicVerif.Model.SplineSolve.solveF knots cyclic = some F) :
+    let n := if cyclic then knots.length - 1 else knots.length
+    F.length = n ∧ (∀ r ∈ F, r.length = n) ∧ AllZero (residualF knots cyclic F) ∧
+    (knots.Pairwise (· < ·) → 2 ≤ knots.length →
+      ∀ F' : List (List Rat), F'.length = n → (∀ r ∈ F', r.length = n) →
+        AllZero (residualF knots cyclic F') → F' = F) := by
+  intro n
+  unfold FormulaicVerif.Model.SplineSolve.solveF at h
+  simp only at h
+  cases hF : (if cyclic = true then FormulaicVerif.Model.SplineSolve.cycF knots else FormulaicVerif.Model.SplineSolve.natF knots) with
+  | none => rw [hF] at h; cases h
+  | some F0 =>
+    rw [hF] at h
+    simp only at h
+    by_cases hc : F0.length = n ∧ (F0.all fun r => decide (r.length = n)) = true ∧
+        FormulaicVerif.Model.SplineSolve.allZero (residualF knots cyclic F0) = true
+    · rw [if_pos hc] at h
+      injection h with h
+      subst h
+      obtain ⟨h1, h2, h3⟩ := hc
+      have h2' : ∀ r ∈ F0, r.length = n := by
+        intro r hr
+        have := (List.all_eq_true.1 h2) r hr
+        simpa using this
+      refine ⟨h1, h2', SplineSolve_allZero_spec h3, ?_⟩
+      intro hs hn F' e1 e2 e3
+      cases cyclic with
+      | false => exact cr_F_unique knots F' F0 hs hn e1 e2 h1 h2' e3 (SplineSolve_allZero_spec h3)
+      | true => exact cc_F_unique knots F' F0 hs hn e1 e2 h1 h2' e3 (SplineSolve_allZero_spec h3)
+    · rw [if_neg hc] at h; cases h
+
+example : FormulaicVerif.Model.SplineSolve.solveF [0, 1, 3] false = some [[0, 0, 0], [1, -3/2, 1/2], [0, 0, 0]] ∧
+    FormulaicVerif.Model.SplineSolve.solveF [0, 1, 3] true = some [[-3, 3], [3, -3]] := by decide +kernel
+
 /-- **C12.6** Centering: if `c` is the vector of column means of the (non-null) free rows and
 every column of `Q₂` is orthogonal to `c`, then every column of the absorbed matrix `M · Q₂` has
 mean exactly zero. -/
@@ -639,5 +928,365 @@ example : colMeans 2 [[1, 0], [0, 1]] = [1/2, 1/2] ∧ dot (colMeans 2 [[1, 0], 
 example : colMeans 1 ([[1, 0], [0, 1]].map (absorbRow [[1, 0]])) ≠ [0] := by decide +kernel
 
 end cubic
+
+
+section entry
+open FormulaicVerif.Model FormulaicVerif.Model.SplineEntry
+
+/-! ## C12.8 Entry points: argument validation, error exits, knot placement
+
+`Model/SplineEntry.lean` models the two functions from the call as the user writes it (array shape of
+`x`, `extrapolation` as a string, `constraints` as `None` / string / array of any rank, omitted
+arguments, TRANSFORMS aliases) down to the recorded state, with one `Reason` per `raise`
+statement.  These are the functions the correspondence engine runs (`Engines/C12.lean`). -/
+
+/-- **C12.8a** The finite tables the model reads (GENERATED from the live package by
+`harness/translate.py: gen_spline_table`) are the documented ones: the five extrapolation modes,
+the defaults of the two signatures (`degree=3`, `include_intercept=False`,
+`extrapolation="raise"` for `bs`; `extrapolation="extend"`, `cyclic=False` for the cubic splines;
+`None` elsewhere) and the alias table (`bs`, `cr` = `cs` natural, `cc` cyclic).  A change of a
+default or of an alias changes the generated file and breaks this obligation. -/
+theorem spline_tables_documented :
+    Gen.Spline.extrapolation = [("RAISE", "raise"), ("CLIP", "clip"), ("NA", "na"), ("ZERO", "zero"),
+      ("EXTEND", "extend")] ∧
+    Gen.Spline.aliases = [("bs", "basis_spline", none), ("cc", "cubic_spline", some true),
+      ("cr", "cubic_spline", some false), ("cs", "cubic_spline", some false)] ∧
+    (Gen.Spline.bsDf = none ∧ Gen.Spline.bsKnotsIsNone = true ∧ Gen.Spline.bsDegree = 3 ∧
+      Gen.Spline.bsIntercept = false ∧ Gen.Spline.bsLower = none ∧ Gen.Spline.bsUpper = none ∧
+      Gen.Spline.bsMode = "raise") ∧
+    (Gen.Spline.csDf = none ∧ Gen.Spline.csKnotsIsNone = true ∧ Gen.Spline.csLower = none ∧
+      Gen.Spline.csUpper = none ∧ Gen.Spline.csConstraintsIsNone = true ∧ Gen.Spline.csCyclic = false ∧
+      Gen.Spline.csMode = "extend") ∧
+    (parseMode "raise" = some Mode.raise ∧ parseMode "clip" = some Mode.clip ∧
+      parseMode "na" = some Mode.na ∧ parseMode "zero" = some Mode.zero ∧
+      parseMode "extend" = some Mode.extend ∧
+      ∀ s, s ∉ ["raise", "clip", "na", "zero", "extend"] → parseMode s = none) := by
+  refine ⟨rfl, rfl, ⟨rfl, rfl, rfl, rfl, rfl, rfl, rfl⟩, ⟨rfl, rfl, rfl, rfl, rfl, rfl, rfl⟩,
+    by decide, by decide, by decide, by decide, by decide, ?_⟩
+  intro s hs
+  simp only [List.mem_cons, List.not_mem_nil, or_false, not_or] at hs
+  obtain ⟨h1, h2, h3, h4, h5⟩ := hs
+  have e1 : ("raise" == s) = false := beq_eq_false_iff_ne.2 (Ne.symm h1)
+  have e2 : ("clip" == s) = false := beq_eq_false_iff_ne.2 (Ne.symm h2)
+  have e3 : ("na" == s) = false := beq_eq_false_iff_ne.2 (Ne.symm h3)
+  have e4 : ("zero" == s) = false := beq_eq_false_iff_ne.2 (Ne.symm h4)
+  have e5 : ("extend" == s) = false := beq_eq_false_iff_ne.2 (Ne.symm h5)
+  unfold parseMode Gen.Spline.extrapolation
+  simp only [List.find?_cons, List.find?_nil, e1, e2, e3, e4, e5]
+
+/-- **C12.8b** The entry-point model refines the numerical model: for a call whose `x` is a vector
+(or scalar / column), whose `extrapolation` is a member and whose `constraints` is `None`,
+`"center"` or an array of rank ≤ 2, forgetting the reasons of `cubicSpline` gives exactly
+`CubicSpline.fit` on the parsed arguments (`eraseCs` keeps `.ok v` and maps `.error e` to
+`.error e.toCs`) — so C12.5–C12.7 are statements about what the engine
+runs. -/
+theorem cs_entry_refines_fit (r : RawCs) (quant : List Rat → ℕ → List Rat)
+    (getF : List Rat → List (List Rat)) (getQ2 : List (List Rat) → List (List Rat))
+    (xs : List (Option Rat)) (mode : Mode) (cons : CubicSpline.Constraints)
+    (hx : reformatX r.xshape r.x = .ok xs) (hm : parseMode r.mode = some mode)
+    (hc : parseCons r.cons = .ok cons) :
+    eraseCs (cubicSpline r quant getF getQ2)
+      = CubicSpline.fit (r.args cons mode) xs quant getF getQ2 :=
+  cubicSpline_erase r quant getF getQ2 xs mode cons hx hm hc
+
+/-- **C12.8b'** the same for `basis_spline` (non-negative degree, member mode); explicit knots
+reach `BSpline.fit` sorted (`sorted(knots)`), so C12.0–C12.4 apply to what the engine runs. -/
+theorem bs_entry_refines_fit (r : RawBs) (quant : List Rat → ℕ → List Rat) (mode : Mode)
+    (hm : parseMode r.mode = some mode) (hd : 0 ≤ r.degree) :
+    eraseBs (basisSpline r quant)
+      = BSpline.fit (r.args mode) r.x quant :=
+  basisSpline_erase r quant mode hm hd
+
+/-- **C12.8c** Which calls `cubic_spline` rejects, and with which `raise` statement, in the order
+of the code: `df` and `knots` together; then an `x` that is not a vector / column; then (bounds
+resolved) an `extrapolation` that is not a member; … -/
+theorem cs_rejects (r : RawCs) (quant : List Rat → ℕ → List Rat)
+    (getF : List Rat → List (List Rat)) (getQ2 : List (List Rat) → List (List Rat)) :
+    (r.df.isSome ∧ r.knots.isSome → cubicSpline r quant getF getQ2 = .error .bothDfKnots) ∧
+    (¬ (r.df.isSome ∧ r.knots.isSome) → (r.xshape = .mat ∨ r.xshape = .cube) →
+      cubicSpline r quant getF getQ2 = .error .notOneDim) ∧
+    (∀ p, prepareCs r quant = .ok p →
+      -- an accepted call passed every syntactic check:
+      ¬ (r.df.isSome ∧ r.knots.isSome) ∧ (r.df.isSome ∨ r.knots.isSome) ∧
+      (r.xshape = .scalar ∨ r.xshape = .vec ∨ r.xshape = .col) ∧
+      parseMode r.mode = some p.mode ∧ parseCons r.cons = .ok p.cons ∧
+      (∀ d, r.df = some d →
+        (if !r.cyclic && CubicSpline.nConstraints p.cons == 0 then (2 : Int) else 1) ≤ d)) := by
+  refine ⟨?_, ?_, ?_⟩
+  · rintro ⟨h1, h2⟩
+    simp [cubicSpline, prepareCs, h1, h2]
+  · intro hb hs
+    have hb' : (r.df.isSome && r.knots.isSome) = false := by
+      cases h1 : r.df.isSome <;> cases h2 : r.knots.isSome <;> simp_all
+    rcases hs with hs | hs <;> simp [cubicSpline, prepareCs, hb', reformatX, hs]
+  · intro p hp
+    obtain ⟨hb, hx, _, _, hm, _, hn, hc, nInner, h3, _⟩ := prepareCs_inv hp
+    refine ⟨?_, ?_, ?_, hm, hc, ?_⟩
+    · intro ⟨h1, h2⟩; simp [h1, h2] at hb
+    · cases h1 : r.df <;> cases h2 : r.knots <;> simp [h1, h2] at hn ⊢
+    · cases hs : r.xshape <;> simp [reformatX, hs] at hx ⊢
+    · intro d hd
+      unfold nInnerOf at h3
+      rw [hd] at h3
+      simp only at h3
+      by_contra hlt
+      rw [if_pos (not_le.1 hlt)] at h3
+      cases h3
+
+/-- **C12.8d** Exits that cannot be taken through `cubic_spline`: `_get_all_sorted_knots` is never
+asked for a negative number of knots (line 286), never given a count together with explicit knots
+(line 308) nor neither of them (line 324), and `_map_cyclic` (line 203) is not reached with an
+empty interval; every error of a first call carries one of the other reasons. -/
+theorem cs_unreachable_exits (r : RawCs) (quant : List Rat → ℕ → List Rat)
+    (getF : List Rat → List (List Rat)) (getQ2 : List (List Rat) → List (List Rat)) :
+    cubicSpline r quant getF getQ2 ≠ .error .negInner ∧
+    cubicSpline r quant getF getQ2 ≠ .error .knotCount ∧
+    cubicSpline r quant getF getQ2 ≠ .error .neitherInner ∧
+    cubicSpline r quant getF getQ2 ≠ .error .mapCyclic ∧
+    (∀ e, cubicSpline r quant getF getQ2 = .error e → CsReachable e) := by
+  refine ⟨?_, ?_, ?_, ?_, fun e h => cubicSpline_error_reachable h⟩ <;>
+  · intro h
+    exact cubicSpline_error_reachable h
+
+/-- **C12.8e** Accepted calls satisfy the hypotheses of the cubic-spline theorems: the recorded
+knots are strictly increasing, at least two, contain both recorded bounds (`lower ≤ upper`), and —
+with explicit knots — are the distinct values among the bounds and the user's list
+(`numpy.unique`), whatever order and multiplicity the user wrote. -/
+theorem cs_accepted_knots (r : RawCs) (quant : List Rat → ℕ → List Rat)
+    (getF : List Rat → List (List Rat)) (getQ2 : List (List Rat) → List (List Rat))
+    (st : CubicSpline.State) (out : CubicSpline.Output)
+    (h : cubicSpline r quant getF getQ2 = .ok (st, out)) :
+    st.knots.Pairwise (· < ·) ∧ 2 ≤ st.knots.length ∧ st.lower ∈ st.knots ∧ st.upper ∈ st.knots ∧
+      st.lower ≤ st.upper ∧ st.cyclic = r.cyclic ∧
+      (∀ ks, r.knots = some ks → st.knots = CubicSpline.unique (st.lower :: st.upper :: ks)) := by
+  unfold cubicSpline at h
+  cases hp : prepareCs r quant with
+  | error e => rw [hp] at h; cases h
+  | ok p =>
+    rw [hp] at h
+    simp only at h
+    unfold finishCs at h
+    dsimp only at h
+    split at h
+    · cases h
+    · split at h
+      · cases h
+      · injection h with h
+        injection h with h1 h2
+        subst h1
+        obtain ⟨a, b, c, d, e, f⟩ := prepareCs_ok hp
+        exact ⟨a, b, c, d, e, rfl, f⟩
+
+/-- **C12.8f** The cubic regression splines depend on the SET of explicit knots only: two lists
+with the same members (any order, any repeats) give the same recorded state and the same values. -/
+theorem cs_explicit_knots_order_irrelevant (r : RawCs) (ks ks' : List Rat)
+    (h : ∀ a, a ∈ ks ↔ a ∈ ks') (quant : List Rat → ℕ → List Rat)
+    (getF : List Rat → List (List Rat)) (getQ2 : List (List Rat) → List (List Rat)) :
+    cubicSpline { r with knots := some ks } quant getF getQ2
+      = cubicSpline { r with knots := some ks' } quant getF getQ2 :=
+  cubicSpline_knots_congr r ks ks' h quant getF getQ2
+
+/-- **C12.8f'** The B-spline transform depends on the MULTISET of explicit interior knots only:
+listing them in another order gives the same recorded state and the same values (a repeated knot
+is a knot of higher multiplicity and is kept). -/
+theorem bs_explicit_knots_order_irrelevant (r : RawBs) (ks ks' : List Rat) (h : ks.Perm ks')
+    (quant : List Rat → ℕ → List Rat) :
+    basisSpline { r with knots := some ks } quant = basisSpline { r with knots := some ks' } quant :=
+  basisSpline_knots_perm r ks ks' h quant
+
+/-- **C12.8g** The quantile knots (`numpy.nanquantile` / `nanpercentile`, `method="linear"`, on
+exact rationals): `m` knots, non-decreasing, inside every interval that contains the sample. -/
+theorem quantile_knots (s : List Rat) (m : ℕ) (hs : s ≠ []) :
+    (quantLin s m).length = m ∧ (quantLin s m).Pairwise (· ≤ ·) ∧
+    ∀ lo hi, (∀ x ∈ s, lo ≤ x ∧ x ≤ hi) → ∀ v ∈ quantLin s m, lo ≤ v ∧ v ≤ hi :=
+  ⟨quantLin_length s m, quantLin_sorted s m hs, fun lo hi hb => quantLin_bounds s m lo hi hs hb⟩
+
+/-- **C12.8h** `bs(x, df=k)`: with the quantile knots computed by the model, an accepted call
+records a knot vector that is the padding of ADMISSIBLE interior knots (`KnotsOk`: non-decreasing,
+inside the bounds) — the hypothesis of C12.2 and C12.4 — for `raise`, `clip`, `na`, `zero`; for
+`extend` under the extra hypothesis that the data lie inside the bounds (the code takes the
+quantiles of all the data in that mode). Explicit knots are admissible iff they lie in the bounds. -/
+theorem bs_df_knots_admissible (r : RawBs) (st : State) (mode : Mode)
+    (h : prepareBs r quantLin = .ok (st, mode)) (df : Int) (hdf : r.df = some df) (hne : df ≠ 0)
+    (hext : mode = .extend → ∀ v ∈ nonNull r.x, st.lower ≤ v ∧ v ≤ st.upper) :
+    ∃ interior, st.knots = padKnots st.lower interior st.upper r.degree.toNat ∧
+      KnotsOk st.lower st.upper interior :=
+  prepareBs_df_knotsOk h df hdf hne hext
+
+/-- **C12.8i** `cr/cc(x, df=k)`: with exact quantiles the inner knots never collide — whenever the
+in-range data hold two distinct values `_get_all_sorted_knots` succeeds for every non-negative
+number of inner knots and returns the bounds around strictly increasing quantile knots. -/
+theorem cs_df_knots_never_collide (xs : List (Option Rat)) (lo hi : Rat) (n : Int) (hn : 0 ≤ n)
+    (h2 : 2 ≤ (CubicSpline.knotsSample lo hi xs).length) :
+    sortedKnots (CubicSpline.knotsSample lo hi xs) lo hi (some n) none quantLin
+      = .ok (lo :: (quantLin (CubicSpline.knotsSample lo hi xs) n.toNat ++ [hi])) :=
+  sortedKnots_df_ok xs lo hi n hn h2
+
+/-- **C12.8j** Column count of the cubic regression splines: an accepted call with `df = k` returns
+exactly `k` columns when no constraint is given; with constraints the free basis has `k + (number
+of constraint rows)` functions and the result has as many columns as `Q₂` (a parameter: the
+null-space basis from `numpy.linalg.qr`, `k` columns by its contract).  No assumption on the
+quantile routine: the `numpy.unique` size check enforces the count. -/
+theorem cs_ncols (r : RawCs) (quant : List Rat → ℕ → List Rat) (getF : List Rat → List (List Rat))
+    (getQ2 : List (List Rat) → List (List Rat)) (st : CubicSpline.State) (out : CubicSpline.Output)
+    (h : cubicSpline r quant getF getQ2 = .ok (st, out)) (k : Int) (hk : r.df = some k) :
+    (st.constraints = none → (out.ncols : Int) = k) ∧
+    (∀ c, st.constraints = some c →
+      (((if st.cyclic then st.knots.length - 1 else st.knots.length : ℕ) : ℕ) : Int) = k + c.length ∧
+      out.ncols = (getQ2 c).length) :=
+  cubicSpline_ncols h k hk
+
+/-- **C12.8k** On an admissible state (strictly increasing knots, at least two — every state an
+accepted call records, C12.8e) with `F` and `Q₂` of the right shapes, `cubic_spline` cannot fail
+except by `extrapolation="raise"`: no `IndexError`, no shape error, and `_map_cyclic`'s bound
+check (line 203) never fires; every input value gets a row. -/
+theorem cs_numeric_part_total (st : CubicSpline.State) (hs : st.knots.Pairwise (· < ·))
+    (hn : 2 ≤ st.knots.length) (mode : Mode) (xs : List (Option Rat)) (F Q2 : List (List Rat))
+    (hF : F.length = if st.cyclic then st.knots.length - 1 else st.knots.length)
+    (hFr : ∀ r ∈ F, r.length = if st.cyclic then st.knots.length - 1 else st.knots.length)
+    (hQ : st.constraints ≠ none →
+      ∀ q ∈ Q2, q.length = if st.cyclic then st.knots.length - 1 else st.knots.length)
+    (hr : (mode = .raise && (nonNull xs).any (outside st.lower st.upper)) = false) :
+    ∃ out, CubicSpline.transform st mode xs F Q2 = .ok out ∧ out.rows.length = xs.length :=
+  transform_total st hs hn mode xs F Q2 hF hFr hQ hr
+
+
+/-! ### Non-vacuity for C12.8: concrete calls
+(`decide +kernel` on closed rational arithmetic; `numpy.unique` = `List.mergeSort` + `eraseDups` is
+defined by well-founded recursion and does not evaluate in the kernel, so the cubic-spline
+instances that reach it are stated through `unique_eq`) -/
+
+/-- the hypotheses of C12.8b: a column-shaped `x`, a member mode, a 1-d constraint vector -/
+example : reformatX .col [some 1, none] = .ok [some 1, none] ∧ parseMode "zero" = some Mode.zero ∧
+    (∃ c, parseCons (.arr 1 [[1, 0, 2]]) = .ok c) := ⟨rfl, by decide, ⟨_, rfl⟩⟩
+/-- `numpy.unique` of the bounds and a list with a repeat, out of order (C12.8e/f) -/
+example : CubicSpline.unique [0, 3, 2, 1, 2] = [0, 1, 2, 3] :=
+  unique_eq (by intro a; simp only [List.mem_cons, List.not_mem_nil, or_false]; tauto) (by decide +kernel)
+/-- the exact quantile knots of a sample with a tie (C12.8g): positions 2/3·3 = 2 … -/
+example : quantLin [3, 0, 3, 1] 2 = [1, 3] ∧ quantLin [0, 1, 3] 2 = [2/3, 5/3] := by decide +kernel
+/-- the `raise` statements that the stream `c12` newly exercises are taken by concrete calls -/
+example : reasonOf (prepareCs { xshape := .cube, x := [some 0, some 1], df := some 3, knots := none, lower := none, upper := none, cons := .none, cyclic := false, mode := "extend" } quantLin) = some .notOneDim := by
+  decide +kernel
+example : reasonOf (prepareCs { xshape := .vec, x := [some 0, some 1], df := none, knots := none, lower := none, upper := none, cons := .none, cyclic := false, mode := "extend" } quantLin) = some .neitherDfKnots := by
+  decide +kernel
+example : reasonOf (prepareCs { xshape := .vec, x := [some 0, some 1], df := some 3, knots := none, lower := none, upper := none, cons := .str "centre", cyclic := false, mode := "extend" } quantLin) = some .badConstraintStr := by
+  decide +kernel
+example : reasonOf (prepareCs { xshape := .vec, x := [some 0, some 1], df := some 3, knots := none, lower := none, upper := none, cons := .arr 3 [[1, 1]], cyclic := false, mode := "extend" } quantLin) = some .constraintNdim := by
+  decide +kernel
+example : reasonOf (prepareCs { xshape := .vec, x := [some 0, some 1], df := some 3, knots := none, lower := some 2, upper := some 1, cons := .none, cyclic := false, mode := "clip" } quantLin) = some .lowerGtUpper := by
+  decide +kernel
+example : reasonOf (prepareCs { xshape := .vec, x := [some 0, some 1], df := some 3, knots := none, lower := none, upper := none, cons := .none, cyclic := false, mode := "linear" } quantLin) = some .badMode := by
+  decide +kernel
+/-- the exits of C12.8d ARE taken when the helpers are called directly (stream `helper`) -/
+example : reasonOf (sortedKnots [0, 1] 0 1 (some (-1)) none quantLin) = some .negInner ∧
+    reasonOf (sortedKnots [0, 1] 0 1 none none quantLin) = some .neitherInner ∧
+    reasonOf (mapCyclicAll [1/2] 1 1) = some .mapCyclic := by decide +kernel
+/-- C12.8h: an accepted `df` call with its exact quantile knots, and why `extend` needs its
+hypothesis — with bounds `[0, 1]` and data outside them the quantile knot of ALL the data is not
+inside the bounds -/
+example : (prepareBs { x := [some 0, some 1, some (1/2), none], df := some 5, knots := none, degree := 3, intercept := false, lower := none, upper := none, mode := "raise" } quantLin).toOption.map (·.1.knots)
+    = some [0, 0, 0, 0, 1/3, 2/3, 1, 1, 1, 1] := by decide +kernel
+example : (prepareBs { x := [some (-2), some (-1)], df := some 2, knots := none, degree := 1, intercept := false, lower := some 0, upper := some 1, mode := "extend" } quantLin).toOption.map (·.1.knots)
+      = some [0, 0, -3/2, 1, 1] ∧ ¬ KnotsOk 0 1 [-3/2] := by
+  refine ⟨by decide +kernel, fun h => ?_⟩
+  have := (h.inb (-3/2) (by simp)).1
+  norm_num at this
+/-- C12.8f': `bs` records explicit knots sorted, repeats kept -/
+example : (prepareBs { x := [some 0, some 1], df := none, knots := some [3/4, 1/4, 1/2, 1/4], degree := 1, intercept := true, lower := none, upper := none, mode := "raise" } quantLin).toOption.map (·.1.knots)
+    = some [0, 0, 1/4, 1/4, 1/2, 3/4, 1, 1] := by decide +kernel
+
+end entry
+
+/-! ## C12.9 Capstones: what every accepted call delivers -/
+
+section capstone
+open FormulaicVerif.Model FormulaicVerif.Model.SplineEntry
+
+/-- **C12.9a** (capstone, B-splines) Every accepted first call of `bs` — knots from `df` (exact
+quantiles) or explicit knots in any order that lie inside the bounds, or no knots at all — records
+a knot vector on which every row of an in-range value is non-negative, bounded by one and sums to
+one.  Hypotheses that are not consequences of acceptance: the bounds are ordered (they are whenever
+they come from the data), explicit knots lie inside them, and for `extrapolation="extend"` with
+`df` the data lie inside the bounds. -/
+theorem bs_accepted_call_partition_of_unity (r : RawBs) (st : State) (mode : Mode)
+    (h : prepareBs r quantLin = .ok (st, mode)) (hle : st.lower ≤ st.upper)
+    (hks : ∀ ks, r.knots = some ks → ∀ k ∈ ks, st.lower ≤ k ∧ k ≤ st.upper)
+    (hext : mode = .extend → ∀ v ∈ nonNull r.x, st.lower ≤ v ∧ v ≤ st.upper)
+    (x : ℚ) (h1 : st.lower ≤ x) (h2 : x ≤ st.upper) :
+    (rowAll st.knots r.degree.toNat false x).sum = 1 ∧
+      ∀ v ∈ rowAll st.knots r.degree.toNat false x, 0 ≤ v ∧ v ≤ 1 := by
+  have key : ∃ interior, st.knots = padKnots st.lower interior st.upper r.degree.toNat ∧
+      KnotsOk st.lower st.upper interior := by
+    by_cases hdf : ∃ df, r.df = some df ∧ df ≠ 0
+    · obtain ⟨df, e1, e2⟩ := hdf
+      exact bs_df_knots_admissible r st mode h df e1 e2 hext
+    · obtain ⟨_, _, _, _, _, _, interior, hik, hk⟩ := prepareBs_inv h
+      refine ⟨interior, hk, ?_⟩
+      have hgiven : interior = (match r.knots with | none => [] | some k => sort k) := by
+        unfold SplineEntry.interiorKnots at hik
+        cases hd : r.df with
+        | none => rw [hd] at hik; simp only at hik; injection hik with hik; exact hik.symm
+        | some df =>
+          rw [hd] at hik
+          simp only at hik
+          have : df = 0 := by
+            by_contra hne
+            exact hdf ⟨df, hd, hne⟩
+          rw [if_pos this] at hik
+          injection hik with hik
+          exact hik.symm
+      rw [hgiven]
+      cases hk' : r.knots with
+      | none => exact ⟨hle, List.Pairwise.nil, fun k hk => by cases hk⟩
+      | some ks => exact sort_knotsOk st.lower st.upper ks hle (hks ks hk')
+  obtain ⟨interior, hk, hok⟩ := key
+  rw [hk]
+  exact ⟨bs_partition_of_unity hok _ x h1 h2, bs_nonneg hok _ x h1 h2⟩
+
+/-- **C12.3''** `bs(x, df=k)` has exactly `k` columns — with the quantile knots computed by the
+model there is no assumption on the quantile routine left. -/
+theorem bs_ncols_exact (a : Args) (xs : List (Option Rat)) (st : State) (out : Output) (df : ℕ)
+    (hdf : a.df = some (df : Int)) (hpos : df ≠ 0) (hfit : fit a xs quantLin = .ok (st, out)) :
+    out.cols.length = df ∧ ∀ row, some row ∈ out.rows → row.length = df :=
+  bs_ncols a xs quantLin st out df (fun s m => quantLin_length s m) hdf hpos hfit
+
+/-- **C12.9b** (capstone, cubic regression splines) Every accepted first call of `cr` / `cc` /
+`cubic_spline`, with the second-derivative map the model solves for, yields THE cardinal basis:
+the recorded knots are admissible, `F` is the unique matrix satisfying the contract, the free
+design-matrix row at every recorded knot is the unit row (identity at the knots), and the
+numerical part cannot fail on new data (other than by `extrapolation="raise"`). -/
+theorem cs_accepted_call_is_cardinal_basis (r : RawCs) (quant : List Rat → ℕ → List Rat)
+    (getQ2 : List (List Rat) → List (List Rat)) (st : CubicSpline.State) (out : CubicSpline.Output)
+    (getF : List Rat → List (List Rat))
+    (h : cubicSpline r quant getF getQ2 = .ok (st, out)) (F : List (List Rat))
+    (hF : SplineSolve.solveF st.knots st.cyclic = some F) :
+    let n := if st.cyclic then st.knots.length - 1 else st.knots.length
+    st.knots.Pairwise (· < ·) ∧ 2 ≤ st.knots.length ∧
+    F.length = n ∧ (∀ row ∈ F, row.length = n) ∧ AllZero (CubicSpline.residualF st.knots st.cyclic F) ∧
+    (∀ F' : List (List Rat), F'.length = n → (∀ row ∈ F', row.length = n) →
+      AllZero (CubicSpline.residualF st.knots st.cyclic F') → F' = F) ∧
+    (∀ k (hk : k < st.knots.length), CubicSpline.freeRow st.knots st.cyclic F st.knots[k]
+      = .ok ((List.range n).map (CubicSpline.delta
+          (if st.cyclic && k + 1 == st.knots.length then 0 else k)))) ∧
+    (∀ (mode : Mode) (xs : List (Option Rat)), st.constraints = none →
+      (mode = .raise && (nonNull xs).any (outside st.lower st.upper)) = false →
+      ∃ o, CubicSpline.transform st mode xs F [] = .ok o ∧ o.rows.length = xs.length) := by
+  intro n
+  obtain ⟨hs, hn, _⟩ := cs_accepted_knots r quant getF getQ2 st out h
+  obtain ⟨f1, f2, f3, f4⟩ := solveF_is_the_solution st.knots st.cyclic F hF
+  refine ⟨hs, hn, f1, f2, f3, fun F' a b c => f4 hs hn F' a b c, ?_, ?_⟩
+  · intro k hk
+    cases hc : st.cyclic with
+    | false =>
+      simp only [n, hc, Bool.false_eq_true, if_false] at f1 f2 ⊢
+      simpa using cr_identity_at_knots st.knots F k hk hs hn f1 f2
+    | true =>
+      simp only [n, hc, if_true] at f1 f2 ⊢
+      have := cc_identity_at_knots st.knots F k hk hs hn f1 f2
+      simp only [Bool.true_and, beq_iff_eq]
+      exact this
+  · intro mode xs hc hr
+    exact cs_numeric_part_total st hs hn mode xs F [] f1 f2 (fun h' => absurd hc h') hr
+end capstone
 
 end FormulaicVerif.Props.C12
